@@ -1,14 +1,14 @@
-\* one kernel of each kind among up to two unrelated symbols placed before or after, every order of up to 3 symbols,
+\* thorough: one kernel of every kind (all near misses) among up to two unrelated symbols, both layouts, every order of up to 4 symbols,
 \* stripped single-kernel files
 SPECIFICATION Spec
 CONSTANTS
   Deviations = {}
-  Kernels <- KNoise
-  Layouts <- LOneDyn
+  Kernels <- KOne
+  Layouts <- LQuick
   Pads = {0, 4}
   NoiseFront = {TRUE, FALSE}
   MaxKernels = 1
   MaxNoise = 2
-  MaxSwapLen = 3
+  MaxSwapLen = 4
 INVARIANTS TypeOK AlwaysWellFormed LoadIsTruth AutoDetect OthersRefused
 CHECK_DEADLOCK FALSE
